@@ -42,7 +42,7 @@ def add_pair_gates(rng, case):
 
 def generate(rng, tier, seed):
     n = scaled(500 if tier == "quick" else 8000)
-    cases = [gen_case(rng, f"c03_{seed}_{k}") for k in range(n)]
+    cases = [gen_case(rng, f"c03_{seed}_{k}", allow_sched=(k % 4 == 3)) for k in range(n)]     # (every 4th: scheduler-script nodes)
     extra = []
     for k in range(n // 4):
         c = gen_case(rng, f"c03_{seed}_pg{k}", n_nodes=rng.choice([3, 5, 8]), max_depth=1)
